@@ -405,11 +405,31 @@ def make_numpy(extra=None):
                 out.rep = res.rep
                 return out
             return res
+        if all(isinstance(v, Tensor) for v in (x, y, where, out)) and x.shape == y.shape == where.shape == out.shape:
+            data = []
+            for xe, ye, we, oe in zip(x.data, y.data, where.data, out.data):
+                wz, yz = to_z3(we, "bool"), to_z3(ye, "real")
+                I.path.oblige(I.ob_name("noraise", "divide-by-zero->inf"), z3.Implies(wz, yz != 0), kind="noraise", exc="inf")
+                data.append(mk(z3.If(wz, to_z3(xe, "real") / yz, to_z3(oe, "real"))))
+            out.data[:] = data
+            return out
         raise Unsupported("np.divide(where=) on fixed arrays")
     A["divide"] = Builtin("np.divide", divide)
 
+    def where(I, a, k):
+        m = a[0]
+        if len(a) == 1 and isinstance(m, Tensor) and m.ndim == 1 and not any(isinstance(b, Sym) for b in m.data):
+            idx = [i for i, b in enumerate(m.data) if b]
+            return (Tensor((len(idx),), idx, "int"),)
+        raise Unsupported("np.where of a symbolic / multi-dimensional fixed array")
+    A["where"] = Builtin("np.where", where)
+
     def broadcast_to(I, a, k):
         x = a[0]
+        if isinstance(x, Tensor) and isinstance(a[1], (tuple, list)) and all(isinstance(s_, int) for s_ in a[1]):
+            shp = tuple(a[1])
+            from ..values import broadcast_get, iter_idx
+            return Tensor(shp, [broadcast_get(x, shp, idx) for idx in iter_idx(shp)], x.dtype)
         if hasattr(x, "pw_map"):
             ps = sym_shape(a[1])
             from .pointwise import PW
